@@ -23,6 +23,10 @@ class TransformFixHasattrCall(SimpleCodemod):
 
     def on_result_found(self, original_node, updated_node):
         del original_node
+        # `hasattr(..., "__call__")` also matches calls that do not have exactly
+        # two arguments: those raise TypeError, `callable(x)` would not
+        if len(updated_node.args) != 2:
+            return updated_node
         return updated_node.with_changes(
             func=updated_node.func.with_changes(value="callable"),
             args=[updated_node.args[0].with_changes(comma=cst.MaybeSentinel.DEFAULT)],
